@@ -30,6 +30,8 @@ HOWS = ["class", "ref", "entrypoint"]
 def _value(d: D, depth: int = 0) -> Any:
     k = d.weighted([("int", 35), ("str", 20), ("dict", 25 if depth < 2 else 0), ("list", 10), ("none", 10)])
     if k == "int":
+        if d.pct(25):
+            return d.pick([0, 1, False, True, 0.0, 1.0])  # equal values of different types stay different settings
         return d.int(0, 9)
     if k == "str":
         return d.pick(["s", "t", ""])
@@ -57,12 +59,30 @@ def _kwargs(d: D) -> dict:
     return kw
 
 
+def _retyped(v: Any) -> Any:
+    """The same settings with other types that compare equal: 0 -> False, 1 -> True, other ints -> floats."""
+    if isinstance(v, dict):
+        return {k: _retyped(x) for k, x in v.items()}
+    if isinstance(v, list):
+        return [_retyped(x) for x in v]
+    if isinstance(v, bool):
+        return int(v)
+    if isinstance(v, int):
+        return bool(v) if v in (0, 1) else float(v)
+    if isinstance(v, float) and v.is_integer():
+        return int(v)
+    return v
+
+
 def _override(d: D, base: dict, depth: int = 0) -> dict:
     """External values for (some of) the keys of `base`, plus new keys."""
     out: dict[str, Any] = {}
     for k, v in base.items():
         r = d.int(0, 99)
         if r < 40:
+            continue
+        if isinstance(v, (dict, int, float)) and r < 48 and _retyped(v) is not v and repr(_retyped(v)) != repr(v):
+            out[k] = _retyped(v)  # equal to the default, but not the same settings
             continue
         if isinstance(v, dict) and r < 90 and depth < 2:
             out[k] = _override(d, v, depth + 1)  # dict on both sides: merged at depth
